@@ -125,7 +125,41 @@ def unterminated_last_event(ctx, r):
         st.close()
 
 
+def every_open_state_keeps_its_epic(ctx):
+    """an epic whose only child is in each of the six states, then `prune --yes` (and the dry run before it): the epic goes exactly when the child
+    is done or canceled — a child in todo, doing, blocked *or error* keeps it, so no task is ever left pointing at a pruned epic"""
+    for state in ("todo", "doing", "blocked", "error", "done", "canceled"):
+        st = cmdrun.Store(ctx.ergo, ctx.go)
+        trace = []
+        try:
+            def ex(argv, stdin=None):
+                res = st.exec(argv, stdin); trace.append({"argv": argv, "stdin": None if stdin is None else stdin.decode(), "exit": res["exit"]}); return res
+            e = json.loads(ex(["--json", "new", "epic"], b'{"title":"the epic"}')["stdout"])["id"]
+            t = json.loads(ex(["--json", "new", "task"], json.dumps({"title": "only child", "epic": e}).encode())["stdout"])["id"]
+            if state in ("doing", "error", "done"):
+                ex(["--json", "--agent", "w", "claim", t])
+            if state not in ("todo", "doing"):
+                ex(["--json", "--agent", "w", "set", t], json.dumps({"state": state}).encode())
+            dry = ex(["--json", "prune"])
+            res = ex(["--json", "prune", "--yes"])
+            ctx.count(1, key=("only-child", state))
+            g = st.graph()
+            if "err" in g:
+                ctx.violation("C14 store unreadable", g["err"][:200], {"trace": trace}); return
+            bad = oracles.inv14(g["graph"])
+            if bad:
+                ctx.violation("C14 %s via prune" % bad[0][0], "task %s (state %s) has epic_id %s, which prune --yes removed" % (bad[0][1], state, bad[0][2]), {"trace": trace, "bad": bad[0]}); return
+            live = {x["id"] for x in g["graph"]["tasks"]}
+            want_gone = state in ("done", "canceled")
+            if (e in live) == want_gone or (t in live) == want_gone:
+                ctx.violation("C14 prune took the wrong set (only child %s)" % state, "after prune --yes: epic %s, child %s; expected both %s" %
+                              ("live" if e in live else "gone", "live" if t in live else "gone", "gone" if want_gone else "live"), {"trace": trace}); return
+        finally:
+            st.close()
+
+
 def run(ctx):
+    every_open_state_keeps_its_epic(ctx)
     r = gen.Rng(ctx.seed * 1000003 + 14)
     for i in range(4 if ctx.quick else 60):
         unterminated_last_event(ctx, r.fork())
